@@ -712,7 +712,7 @@ func runCase(h *harness.H, layer string, c int) {
 // (message translation to and from the wire format included) instead of the mock network.
 func layerSeqGRPC(h *harness.H) {
 	h.AddRule("seq-grpc: the seq cases (initial views, steps, closing phases, same oracles) with every member served by aspen/transport/grpc on a loopback port, so that gossip messages cross the protobuf translators; fewer cases, one worker")
-	n := h.N(120, 4000)
+	n := h.N(120, 1500)
 	for c := 0; c < n; c++ {
 		if h.Skip("seq-grpc", c) {
 			continue
